@@ -286,12 +286,128 @@ def _const_decl(unit, name):
     return {"dots": True, "value": None}       # static const: no value in the cdef
 
 
+# ---------------------------------------------------------------------------- `[...]` before a full struct
+
+PREFIXES = [
+    ("extern-array", "extern int tbl[...];"),
+    ("typedef-array", "typedef int vec_t[...];"),
+    ("extern-array-2d", "extern int arr2[...][3];"),
+    ("partial-struct-field", "struct pp { int n; int a[...]; ...; };"),
+]
+PREFIX_CSOURCE = """#include <stddef.h>
+int tbl[5] = {1, 2, 3, 4, 5};
+typedef int vec_t[4];
+int arr2[2][3];
+struct pp { int n; int a[3]; long tail; };
+struct mm { char c; long l; short s; };
+union mu { int a; char b[3]; long extra; };
+struct okk { int x; char y; };
+union oku { short h; int w; };
+size_t verif_sizeof_pp(void) { return sizeof(struct pp); }
+size_t verif_sizeof_okk(void) { return sizeof(struct okk); }
+size_t verif_offsetof_okk_y(void) { return offsetof(struct okk, y); }
+size_t verif_sizeof_oku(void) { return sizeof(union oku); }
+"""
+PREFIX_HELPERS = ("size_t verif_sizeof_pp(void); size_t verif_sizeof_okk(void); size_t verif_offsetof_okk_y(void); "
+                  "size_t verif_sizeof_oku(void);\n")
+# fully declared, but disagreeing with the C source: fields in another order / a member of the C union missing
+MISMATCH = {"struct": ("struct mm", "struct mm { long l; char c; short s; };"),
+            "union": ("union mu", "union mu { int a; char b[3]; };")}
+MATCHING = "struct okk { int x; char y; };\nunion oku { short h; int w; };\n"
+
+
+def prefix_stream(ctx):
+    """Deterministic in every run: a `[...]`-length global / typedef / partial struct declared BEFORE fully declared
+    structs and unions (same cdef() call or an earlier one).  What precedes a struct must not matter: every fully
+    declared struct/union carries _CFFI_F_CHECK_FIELDS in the generated table (the model's decision: no `...` in
+    its own body => checked), a mismatching one raises at first use exactly as without the preceding declaration,
+    the matching ones and the `[...]` items themselves show the compiler's facts."""
+    import c12_struct_flags
+    fv = c12_struct_flags.flag_values(common.REPO)[0]
+    specs, meta = [], []
+    variants = [(None, "same", "struct")]                       # control: nothing precedes
+    for i, (pname, ptext) in enumerate(PREFIXES):
+        for j, where in enumerate(("same", "earlier")):
+            variants.append(((pname, ptext), where, ("struct", "union")[(i + j) % 2]))
+    # both kinds directly after every kind of prefix at least in the "same" placement
+    for i, (pname, ptext) in enumerate(PREFIXES[:3]):
+        variants.append(((pname, ptext), "same", ("union", "struct")[i % 2]))
+    for n, (prefix, where, first) in enumerate(variants):
+        other = "union" if first == "struct" else "struct"
+        body = MISMATCH[first][1] + "\n" + MATCHING + MISMATCH[other][1] + "\n" + PREFIX_HELPERS
+        if prefix is None:
+            chunks = [[body, False]]
+        elif where == "same":
+            chunks = [[prefix[1] + "\n" + body, False]]
+        else:
+            chunks = [[prefix[1] + "\n", False], [body, False]]
+        modname = "_c12_%d_prefix_%d" % (ctx.seed, n)
+        specs.append((modname, chunks, PREFIX_CSOURCE))
+        meta.append((prefix[0] if prefix else "none", where, first))
+    mods = build_modules(ctx, specs)
+    for (modname, chunks, csource), (pname, where, first) in zip(specs, meta):
+        m = mods[modname]
+        ffi, lib = m.ffi, m.lib
+        base_case = {"variant": "prefix", "prefix": pname, "placement": where, "first": first, "cdef": chunks,
+                     "csource": csource}
+        ctx.count("prefix:%s:%s:%s-first" % (pname, where, first))
+        # tie between the generator's output and the model's decision: no `...` in the body => CHECK_FIELDS
+        tflags = table_flags(os.path.join(ctx.scratch, modname + ".c"))
+        for nm, union in (("mm", False), ("mu", True), ("okk", False), ("oku", True)):
+            want = fv["_CFFI_F_CHECK_FIELDS"] | (fv["_CFFI_F_UNION"] if union else 0)
+            ctx.case(("prefix", pname, where, first, "flags", nm))
+            if tflags.get(nm) != want:
+                ctx.disagree(dict(base_case, struct=nm, cdef="..."), tflags.get(nm), want,
+                             "flags of a fully declared struct/union in the generated table vs the model's decision "
+                             "(no `...` in its body => _CFFI_F_CHECK_FIELDS)")
+        # the mismatching ones must raise at first use, whatever precedes them
+        for kind in (first, "union" if first == "struct" else "struct"):
+            tag = MISMATCH[kind][0]
+            pr = {"k": "sizeof", "tag": tag}
+            obs = G.probe(ffi, lib, pr)
+            ctx.case(("prefix", pname, where, first, "mismatch", kind))
+            ctx.count("prefix-mismatch:%s" % ("raised" if is_error(obs) else "accepted"))
+            if not (is_error(obs) and obs["exc"] in ERROR_FAMILY):
+                ctx.fail(dict(base_case, item=tag, probe=pr, expect="error", observed=obs),
+                         "%s is fully declared and disagrees with the C source, but after `%s` (%s cdef) using it gave %r "
+                         "instead of raising" % (tag, pname, where, obs))
+        # everything else shows the compiler's facts
+        checks = [({"k": "sizeof", "tag": "struct okk"}, int(lib.verif_sizeof_okk())),
+                  ({"k": "offsetof", "tag": "struct okk", "field": "y"}, int(lib.verif_offsetof_okk_y())),
+                  ({"k": "sizeof", "tag": "union oku"}, int(lib.verif_sizeof_oku()))]
+        if pname == "typedef-array":
+            checks.append(({"k": "tdsize", "name": "vec_t"}, 16))
+        if pname == "partial-struct-field":
+            checks.append(({"k": "sizeof", "tag": "struct pp"}, int(lib.verif_sizeof_pp())))
+            checks.append(({"k": "fsize", "tag": "struct pp", "field": "a"}, 12))
+        for pr, want in checks:
+            obs = G.probe(ffi, lib, pr)
+            ctx.case(("prefix", pname, where, first, pr["k"], pr.get("tag", pr.get("name"))))
+            if obs != want:
+                ctx.fail(dict(base_case, item=pr.get("tag", pr.get("name")), probe=pr, expect=want, observed=obs),
+                         "%r after `%s`: got %r, the C compiler says %r" % (pr, pname, obs, want))
+        try:
+            if pname == "extern-array":
+                got, want = (len(lib.tbl), lib.tbl[4]), (5, 5)
+            elif pname == "extern-array-2d":
+                got, want = (len(lib.arr2), len(lib.arr2[0])), (2, 3)
+            else:
+                got = want = None
+        except Exception as e:
+            got = {"exc": type(e).__name__}
+        if got != want:
+            ctx.fail(dict(base_case, item=pname, probe={"k": "array-global"}, expect=list(want), observed=got),
+                     "the `[...]` global declared by `%s` reads %r, the C source says %r" % (pname, got, want))
+
+
 def correspond(ctx):
+    prefix_stream(ctx)
     for uid in range(ctx.n(1, 30)):
         run_unit(ctx, ctx.rng, uid)
 
 
 def search(ctx):
+    prefix_stream(ctx)
     for uid in range(100, 100 + ctx.n(3, 20)):
         run_unit(ctx, ctx.rng, uid, oracle_only=True)
 
@@ -311,6 +427,14 @@ def replay(ctx, obj):
         i, part = case["step"], case["part"]
         print("step %d %r, %s: observed %r, expected %r" % (i, case["session"][i], part, got[part][i], want[part][i]))
         return 0 if got == want else 1
+    if isinstance(pr, dict) and pr.get("k") == "array-global":
+        lib = m.lib
+        try:
+            got = [len(lib.tbl), lib.tbl[4]] if case["item"] == "extern-array" else [len(lib.arr2), len(lib.arr2[0])]
+        except Exception as e:
+            got = {"exc": type(e).__name__}
+        print("array global after %s: observed %r, expected %r" % (case["item"], got, case["expect"]))
+        return 0 if got == case["expect"] else 1
     if pr == "sizeof-again":
         text = case["cdef"] if isinstance(case["cdef"], str) else "".join(c[0] for c in case["cdef"])
         tag = [l for l in text.split("\n") if case["item"].split(":")[1] + " {" in l][0].split("{")[0].strip()
